@@ -15,3 +15,8 @@ class CacheModel:
             return "repeat"
         self.store[key] = True
         return "new"
+
+    def damage(self, key):
+        """the stored entry of this request was truncated / overwritten on disk: the next such request is a miss again
+        (and must heal the entry)"""
+        self.store.pop(key, None)
